@@ -22,6 +22,9 @@ int sched_nthreads(void);
 int sched_finished(int id);
 /* explicit scheduling point for harness code (e.g. before a harness-visible step) */
 void sched_yield_point(const char *what);
+/* bracket a harness step that is to be treated as one atomic scheduler step */
+void sched_atomic_begin(void);
+void sched_atomic_end(void);
 /* end the calling controlled thread from inside its body (runs TLS destructors like thread exit) */
 void sched_exit_thread(void) __attribute__((noreturn));
 
